@@ -20,7 +20,9 @@ for d in sorted(glob.glob("/verif/seeded/*/meta.json")):
     later = []
     for p, r in sorted(m.get("checks_rerun", {}).items()):
         if r.get("lines") and p not in with_input:
-            later.append(p)
+            # the re-run after strengthening: with a failing input, or still through an obligation only
+            wi = r.get("with_input", not all("no-failing-input-found" in l for l in r["lines"]))
+            later.append(p if wi else p + " (obligation)")
     rows.append("| %s | %s | %s | %s | %s | %s |" % (sid, cell(m.get("summary"), 150), cell(m.get("needs"), 120),
                                                ", ".join(with_input) or "—", ", ".join(oblig) or "—", ", ".join(later) or "—"))
 print("\n".join(rows))
